@@ -41,6 +41,8 @@ Orphans(r, d) == {x \in Range(M(CidOf(d)).children) :
                     /\ ~\E t \in DOMAIN tag[r] : tag[r][t] = x
                     /\ ~\E y \in DOMAIN man[r] \ {d} : x \in Range(M(CidOf(y)).children)}
 G2(r, d) == "child-orphan" \in KnownOpen => Orphans(r, d) = {}
+\* G2gc (finding child-orphan-gc): the same situation reached by deleting the blob of the index through the blob API
+G2gc(r, d) == "child-orphan-gc" \in KnownOpen => Orphans(r, d) = {}
 \* G4 (finding child-resurrect): deleting by digest a manifest that an index of the repository still lists
 G4(r, d) == "child-resurrect" \in KnownOpen => ~\E y \in DOMAIN man[r] \ {d} : d \in Range(M(CidOf(y)).children)
 \* G5 (finding gc-drops-response): a collection while some referrer could outlive the response that lists it
@@ -215,8 +217,8 @@ FamOps(f) ==
     [] f = "manputdq" -> {o \in FManPutDQ : Refs(o.body) \subseteq blob[o.repo]}
     [] f = "manputdig" -> {o \in FManPut : o.ref.k = "dig"}
     \* (GC scenarios only) the blob of an indexed manifest is deleted through the blob API: an index entry without content
-    \* (G2: not the blob of an index whose children would be orphaned when the collection prunes its entry: finding child-orphan)
-    [] f = "blobdelman" -> {o \in OpsBlobDel : o.dig \in DOMAIN man[o.repo] /\ o.dig \in blob[o.repo] /\ ~IsArt(o.dig) /\ G2(o.repo, o.dig)}
+    \* (G2gc: not the blob of an index whose children would be orphaned when the collection prunes its entry: finding child-orphan-gc)
+    [] f = "blobdelman" -> {o \in OpsBlobDel : o.dig \in DOMAIN man[o.repo] /\ o.dig \in blob[o.repo] /\ ~IsArt(o.dig) /\ G2gc(o.repo, o.dig)}
     [] f = "manputmiss" -> FManPutMissing
     [] f = "mandel"   -> FManDel
     [] f = "mandelmiss" -> FManDelMiss
